@@ -160,3 +160,27 @@ def cyclic_cleaned(V):
             j = V.skolem('jj', 1, m)
             out.prove('zero-strictly-between-adjacent-peaks', T.simplies(T.sand(T.slt(p[j - 1], i), T.slt(i, p[j])), T.seq(r[i], 0)), inst=[j, T.ssub(j, 1)])
         out.unchanged('c', c)
+
+
+# ------------------------------------------------------------------------------------ power-law equivalent cycles
+IM = 'eqsig.im.'
+
+
+@unit('C13', 'calc_cyc_amp_array_w_power_law', functions=[IM + 'calc_cyc_amp_array_w_power_law'], cases=[dict(bkind='scalar')],
+      modes=('bounded',), sizes=dict(n=[2, 3]))
+def cyc_amp(V, bkind):
+    st = {}
+
+    def setup():
+        n = V.size('n', 2)
+        x = V.array('x', n)
+        b = V.real('b')
+        ncyc = V.real('n_cyc')
+        V.assume(T.sgt(b, Q('0.05')), T.sle(b, 1), T.sgt(ncyc, 0))
+        st.update(n=n, x=x, b=b, ncyc=ncyc)
+        return dict(values=x, n_cyc=ncyc, b=b)
+    for out in V.run(IM + 'calc_cyc_amp_array_w_power_law', setup):
+        if not out.no_raise():
+            continue
+        r = out.result
+        out.prove('length', tuple(r.shape) == (st['n'],))
